@@ -56,12 +56,8 @@ theorem chunkClaim_of (mode : Mode) (leaf : LeafInfo) (cl : ChunkLayout) (es : C
     ChunkClaim mode leaf cl es ∧ leaf.path.length ≤ 100 ∧ (usedEncodings cl).length ≤ 100 := by
   unfold Carquet.Impl.Reader.Claim.chunkClaimed at h
   simp only [Bool.and_eq_true, decide_eq_true_eq, Bool.or_eq_true, Bool.not_eq_true', decide_eq_false_iff_not] at h
-  obtain ⟨⟨⟨⟨⟨⟨⟨h1, h2⟩, h3⟩, h4⟩, h5⟩, h6⟩, h7⟩, h8⟩ := h
-  refine ⟨⟨hadm, h1, ?_, ?_, ⟨hflba, h4, h5⟩, ?_⟩, h6, h7⟩
-  · unfold Carquet.Impl.Reader.Claim.pagesNonEmpty at h2
-    rw [List.all_eq_true] at h2
-    intro pl hpl
-    simpa using h2 pl hpl
+  obtain ⟨⟨⟨⟨⟨⟨h1, h3⟩, h4⟩, h5⟩, h6⟩, h7⟩, h8⟩ := h
+  refine ⟨⟨hadm, h1, ?_, ⟨hflba, h4, h5⟩, ?_⟩, h6, h7⟩
   · intro hd
     rcases h3 with h3 | h3
     · cases hdd : cl.dict with
